@@ -198,3 +198,59 @@ fn c05_bmca_two_ports() {
     core::mem::forget(p1);
     core::mem::forget(p2);
 }
+
+// @harness c12_new_port_base_case
+// @props C12 C03:thorough C17:thorough
+// @tier quick
+// @variant lists2
+// @stubbing yes
+// @timeout 1200
+// @mem 10
+// @functions PtpInstance::new, PtpInstance::add_port, Port::new, Bmca::new, Port::end_bmca
+// @bounds the real construction path for an instance with symbolic priorities / quality / slave-only flag and a port with symbolic delay mechanism, master-only flag and receipt timeout; intervals 2^0 s
+// @assume Interval::as_core_duration / Duration::mul_f64 stubs as in c12_announce_receipt_timer
+// @note base case of the C12 / C08 invariants: a new port is LISTENING with its announce receipt timer requested, nothing is sent, the lock is free
+#[kani::proof]
+#[kani::unwind(9)]
+#[kani::stub(crate::time::Interval::as_core_duration, crate::verif_root::stubs::as_core_duration_int)]
+#[kani::stub(core::time::Duration::mul_f64, crate::verif_root::stubs::mul_f64_contract)]
+fn c12_new_port_base_case() {
+    use crate::config::{DelayMechanism, InstanceConfig, PortConfig, PtpMinorVersion};
+    use crate::time::Interval;
+    let cfg = InstanceConfig {
+        clock_identity: OWN_CLOCK,
+        priority_1: kani::any(),
+        priority_2: kani::any(),
+        domain_number: kani::any(),
+        slave_only: kani::any(),
+        sdo_id: Default::default(),
+        path_trace: kani::any(),
+        clock_quality: any_quality(),
+    };
+    let inst: PtpInstance<RecFilter, DepthCell> = PtpInstance::new(cfg, any_time_properties());
+    let iv = Interval::from_log_2(0);
+    let timeout: u8 = kani::any();
+    let pc = PortConfig {
+        acceptable_master_list: AcceptTwo::any(),
+        delay_mechanism: if kani::any() { DelayMechanism::P2P { interval: iv } } else { DelayMechanism::E2E { interval: iv } },
+        announce_interval: iv,
+        announce_receipt_timeout: timeout,
+        sync_interval: iv,
+        master_only: kani::any(),
+        delay_asymmetry: Duration::ZERO,
+        minor_ptp_version: PtpMinorVersion::One,
+    };
+    let port = inst.add_port(pc, any_filter_cfg(), RecClock::quiet(), StubRng(0x8000_0000_0000_0000));
+    let (running, actions) = port.end_bmca();
+    let (d, _) = drain(actions);
+    let v = view(&running);
+    assert!(v.code == ST_LISTENING, "a new port starts in LISTENING");
+    assert!(d.n == 1 && d.reset_receipt == 1, "C12: a new (listening) port must request its announce receipt timer");
+    let base = 1_000_000_000u128 * timeout as u128;
+    assert!(d.dur_receipt.as_nanos() + 1 >= base && d.dur_receipt.as_nanos() <= 2 * base + 1, "C12: receipt timeout outside timeout * interval * [1, 2]");
+    assert!(inst.state.is_free() && inst.state.peek().default_ds.number_ports == 1);
+    assert!(running.port_identity == PortIdentity { clock_identity: OWN_CLOCK, port_number: 1 });
+    assert!(v.clock_cmds == 0 && v.filter_count == 0);
+    kani::cover!(timeout == 3, "default receipt timeout");
+    core::mem::forget(running);
+}
